@@ -954,6 +954,25 @@ class Evaluator:
         if isinstance(target, ast.Name):
             st.env[target.id] = v
         elif isinstance(target, (ast.Tuple, ast.List)):
+            stars = [i for i, e in enumerate(target.elts) if isinstance(e, ast.Starred)]
+            if len(stars) == 1:
+                # a, *rest, z = v : positions before the star count from the left, those after it from the right
+                k = stars[0]
+                after = len(target.elts) - k - 1
+                lit = v if isinstance(v, TupleT) and not any(isinstance(x, Op) and x.op == '*' for x in v.items) and len(v.items) >= len(target.elts) - 1 else None
+                for i, t in enumerate(target.elts):
+                    if i < k:
+                        self.assign(t, lit.items[i] if lit else Sub(v, Const(i)), st, mod, fi, depth)
+                    elif i == k:
+                        if lit:
+                            mid = TupleT(lit.items[k:len(lit.items) - after], 'list')
+                        else:
+                            mid = Sub(v, SliceT(Const(k) if k else None, Const(-after) if after else None, None))
+                        self.assign(t.value, mid, st, mod, fi, depth)
+                    else:
+                        j = i - len(target.elts)
+                        self.assign(t, lit.items[j] if lit else Sub(v, Const(j)), st, mod, fi, depth)
+                return
             for i, t in enumerate(target.elts):
                 if isinstance(v, TupleT) and i < len(v.items) and not any(isinstance(e, ast.Starred) for e in target.elts):
                     self.assign(t, v.items[i], st, mod, fi, depth)
@@ -962,6 +981,14 @@ class Evaluator:
         elif isinstance(target, (ast.Attribute, ast.Subscript)):
             tt = self.expr(target, st, mod, fi, depth, store=True)
             st.effects = st.effects + (Store(tt, v),)
+            if self._loop_depth == 0 and isinstance(target, ast.Subscript) and isinstance(target.value, ast.Name) and not isinstance(target.slice, ast.Slice):
+                cur = st.env.get(target.value.id)
+                if isinstance(cur, DictT) and not any(isinstance(k, Opaque) for k, _ in cur.items):
+                    # straight-line code: the dict built in this function after the store
+                    k = self.expr(target.slice, st, mod, fi, depth)
+                    new = DictT(tuple((k0, v0) for k0, v0 in cur.items if k0 != k) + ((k, v),))
+                    for name in [n_ for n_, val in st.env.items() if val is cur]:
+                        st.env[name] = new
         elif isinstance(target, ast.Starred):
             self.assign(target.value, Opaque('starred'), st, mod, fi, depth)
         else:
@@ -1297,6 +1324,18 @@ class Evaluator:
             kind = 'gen' if isinstance(e, ast.GeneratorExp) else 'list' if isinstance(e, ast.ListComp) else 'set'
             gens = _split_product(gens)
             return Comp(kind, self.expr(e.elt, sub, mod, fi, depth), tuple(gens))
+        if isinstance(e, ast.DictComp) and len(e.generators) == 1 and not e.generators[0].ifs and isinstance(e.generators[0].target, (ast.Name, ast.Tuple)):
+            lit = self.expr(e.generators[0].iter, st, mod, fi, depth)
+            if isinstance(lit, GlobalVal):
+                lit = lit.value
+            if isinstance(lit, TupleT) and lit.kind in ('tuple', 'list') and 0 < len(lit.items) <= 16 and not any(isinstance(x, Op) and x.op == '*' for x in lit.items):
+                pairs: List[Tuple[Term, Term]] = []
+                for item in lit.items:
+                    sub = st.fork()
+                    self.assign(e.generators[0].target, item, sub, mod, fi, depth)
+                    k, v = self.expr(e.key, sub, mod, fi, depth), self.expr(e.value, sub, mod, fi, depth)
+                    pairs = [(k0, v0) for k0, v0 in pairs if k0 != k] + [(k, v)]
+                return DictT(tuple(pairs))
         if isinstance(e, ast.DictComp):
             sub = st.fork()
             gens = []
@@ -1857,6 +1896,10 @@ class Evaluator:
                 return build(0, ())
         if n == 'len' and len(args) == 1 and isinstance(args[0], TupleT) and not any(isinstance(x, Op) and x.op == '*' for x in args[0].items):
             return Const(len(args[0].items))
+        if n in ('any', 'all') and len(args) == 1 and isinstance(args[0], TupleT) and len(args[0].items) <= 8 and not any(isinstance(x, Op) and x.op == '*' for x in args[0].items):
+            if not args[0].items:
+                return Const(n == 'all')
+            return self.boolop('or' if n == 'any' else 'and', list(args[0].items))
         if n in ('any', 'all') and len(args) == 1 and isinstance(args[0], Comp) and len(args[0].gens) == 1:
             tgt, it, ifs = args[0].gens[0]
             items = it.items if isinstance(it, TupleT) and not any(isinstance(x, Op) and x.op == '*' for x in it.items) else None
